@@ -1,49 +1,52 @@
-(* C18 — property theorems (statements only; proofs are in Proofs_*.v). *)
+(* C18 — property theorems (statements only; proofs are in Proofs_*.v).
+   They describe /repo after commit 329a134 (persistable keys, stale temp files
+   removed, escape-aware label walk). *)
 From Coq Require Import Permutation.
 From Sdns Require Import Common.Base Gen.C18 C18.Model C18.Spec
   C18.Proofs_match C18.Proofs_disk C18.Proofs_reload C18.Proofs_final.
 Open Scope N_scope.
 
 (* Matching is exact on whole labels, case-insensitive, whitelist first: for every
-   list (plain M, wildcard W, whitelist Wl) and every query name whose labels need no
-   escaping, Exists() says "blocked" exactly when the name or a parent is in M, or a
-   strict parent is in W, and neither the name nor a parent is in Wl. *)
+   list (plain M, wildcard W, whitelist Wl) and every query name as it exists on the
+   wire — labels of arbitrary bytes, dots and backslashes included, written the way
+   dns.UnpackDomainName writes them — Exists() says "blocked" exactly when the name or
+   a parent is in M, or a strict parent is in W, and neither the name nor a parent is
+   in Wl.  (Parents: proper ancestors below the root, see Spec.v.) *)
 Theorem exists_spec : forall (M W Wl : list name) (q : name),
-  Forall plainP M -> Forall plainP W -> Forall plainP Wl -> plainP q ->
-  (bl_exists (state_of M W Wl) (render q) = true <-> blocked_spec M W Wl (fold_name q)).
+  Forall wireP M -> Forall wireP W -> Forall wireP Wl -> wireP q ->
+  (bl_exists (state_of M W Wl) (present q) = true <-> blocked_spec M W Wl (fold_name q)).
 Proof. exact exists_spec_lemma. Qed.
 Print Assumptions exists_spec.
+
+(* the same for every escaping the walk can read (shape, ASCII folding, unique decoding) *)
+Theorem exists_spec_any_escaping : forall (esc : N -> str),
+  (forall c, okc c -> (esc c = [c] /\ plainc c) \/ (exists x ds, esc c = c_bs :: x :: ds /\ Forall plainc ds)) ->
+  (forall c, okc c -> map lower (esc c) = esc (lower c)) ->
+  (forall c d s t, okc c -> okc d -> esc c ++ s = esc d ++ t -> c = d) ->
+  forall (M W Wl : list name) (q : name),
+  Forall wireP M -> Forall wireP W -> Forall wireP Wl -> wireP q ->
+  (bl_exists (state_with esc M W Wl) (render_with esc q) = true <-> blocked_spec M W Wl (fold_name q)).
+Proof. exact exists_spec_with. Qed.
+Print Assumptions exists_spec_any_escaping.
 
 (* notexample.com is not matched by example.com: a listed name that is only a
    byte-suffix of the first label of the query plays no role *)
 Theorem label_boundary : forall (l x : label) (p : name),
-  plain_label l = true -> plain_label (x ++ l) = true -> x <> [] -> plainP p ->
-  forall W, Forall plainP W ->
-  bl_exists (state_of [l :: p] W []) (render ((x ++ l) :: p)) = false <->
+  wire_label l = true -> wire_label (x ++ l) = true -> x <> [] -> wireP p ->
+  forall W, Forall wireP W ->
+  bl_exists (state_of [l :: p] W []) (present ((x ++ l) :: p)) = false <->
   ~ (exists a, In a (parents (fold_name ((x ++ l) :: p))) /\ (a = l :: p \/ In a W)).
 Proof. exact label_boundary_lemma. Qed.
 Print Assumptions label_boundary.
 
 (* the reading of "parent domains" (proper ancestors below the root), as facts *)
-Theorem root_entries_not_hierarchical : forall q, plainP q -> q <> [] ->
-  bl_exists (state_of [[]] [[]] []) (render q) = false /\
-  bl_exists (state_of [[]] [] []) (render []) = true /\
-  (forall M W, Forall plainP M -> Forall plainP W ->
-     bl_exists (state_of M W [[]]) (render q) = bl_exists (state_of M W []) (render q)).
+Theorem root_entries_not_hierarchical : forall q, wireP q -> q <> [] ->
+  bl_exists (state_of [[]] [[]] []) (present q) = false /\
+  bl_exists (state_of [[]] [] []) (present []) = true /\
+  (forall M W, Forall wireP M -> Forall wireP W ->
+     bl_exists (state_of M W [[]]) (present q) = bl_exists (state_of M W []) (present q)).
 Proof. exact root_entries_lemma. Qed.
 Print Assumptions root_entries_not_hierarchical.
-
-(* exists_spec for every wire name (labels with arbitrary bytes): refuted by a label
-   that contains a dot — finding blocklist-escaped-dot-label *)
-Theorem whole_labels_escaped_dot_refuted :
-  name_of esc_query = [[97; 46; 98]; [116; 101; 115; 116]] /\
-  name_of esc_entry = [[98]; [116; 101; 115; 116]] /\
-  bl_exists (mk_bl [esc_entry] [] []) esc_query = true /\
-  spec_blocked_b [name_of esc_entry] [] [] (name_of esc_query) = false /\
-  bl_exists (mk_bl [] [[116; 101; 115; 116; 46]] [esc_entry]) esc_query = false /\
-  spec_blocked_b [] [name_of [116; 101; 115; 116; 46]] [name_of esc_entry] (name_of esc_query) = true.
-Proof. exact escaped_dot_refuted_lemma. Qed.
-Print Assumptions whole_labels_escaped_dot_refuted.
 
 (* blocked A / AAAA get the null route, other types an empty authoritative answer,
    the next handler is never reached; anything else goes on untouched *)
@@ -74,51 +77,50 @@ Theorem crash_leaves_complete_file : forall d s k j,
 Proof. exact crash_leaves_complete_file_lemma. Qed.
 Print Assumptions crash_leaves_complete_file.
 
-(* ... but the restart also reads the interrupted temp file: refuted —
-   finding blocklist-stale-temp-reloaded *)
-Theorem crash_reload_refuted :
-  let d := mk_disk (Some crash_old) [] in
-  let d' := crash_at d crash_snap 2 3 in
-  d_local d' = Some crash_old /\
-  let before := load_initial [] [] (disk_files d) in
-  let wanted := mk_bl (sn_exact crash_snap) (sn_wild crash_snap) [] in
-  let after := load_initial [] [] (disk_files d') in
-  bl_exists before crash_probe = false /\ bl_exists wanted crash_probe = false /\ bl_exists after crash_probe = true.
-Proof. exact crash_reload_refuted_lemma. Qed.
-Print Assumptions crash_reload_refuted.
+(* ... and the restart loads the previous list or the new one, whatever temp files lie
+   around; they are gone afterwards *)
+Theorem crash_reload : forall wl bl d s k j,
+  let d' := crash_at d s k j in
+  (load_initial wl bl (disk_files d') = load_initial wl bl (disk_files d) \/
+   load_initial wl bl (disk_files d') = load_initial wl bl [snap_bytes s]) /\
+  d_temps (after_restart d') = [].
+Proof. exact crash_reload_lemma. Qed.
+Print Assumptions crash_reload.
 
-(* the file persist() writes, re-read by parseHostFile: same blocking, for keys
-   without '#' and whitespace, in any line order, redundant entries included *)
+(* the file persist() writes, re-read by parseHostFile: same blocking, in any line
+   order, redundant entries included; good_entry is an invariant of the running list
+   (apply_op_keeps_good) *)
 Theorem reload_equiv : forall w v ex wi,
-  Forall (good_entry w) (entries_of ex wi) -> Forall clean_entry (entries_of ex wi) ->
+  Forall (good_entry w) (entries_of ex wi) ->
   forall q, bl_exists (parse_bytes (snap_bytes (mk_snap v ex wi)) (mk_bl [] [] w)) q = bl_exists (mk_bl ex wi w) q.
 Proof. exact reload_equiv_lemma. Qed.
 Print Assumptions reload_equiv.
 
-(* reload gives back the very same maps: refuted ('#', whitespace, redundant entries) —
-   finding blocklist-reload-special-chars *)
+Theorem memory_invariant : forall o b,
+  Forall sane (op_keys o) -> mem_good b -> mem_good (snd (apply_op o b)).
+Proof. exact apply_op_keeps_good. Qed.
+Print Assumptions memory_invariant.
+
+(* reload gives back the very same maps: refuted for redundant entries (kept or dropped
+   depending on the order the map iteration wrote them); block-equivalent by reload_equiv *)
 Theorem reload_exact_refuted :
-  bm (snd (set_locked k_hash (mk_bl [] [] []))) = [k_hash] /\
-  bm (snd (set_locked k_space (mk_bl [] [] []))) = [k_space] /\
-  bm (reload [k_hash] []) = [[97; 46]] /\
-  bl_exists (reload [k_hash] []) [120; 46; 97; 46] = true /\ bl_exists (mk_bl [k_hash] [] []) [120; 46; 97; 46] = false /\
-  bm (reload [k_space] []) = [[98; 46; 116; 101; 115; 116; 46]] /\
+  bm (snd (apply_op (OpSetBatch [k_ex; k_sub]) (mk_bl [] [] []))) = [k_ex; k_sub] /\
   bm (reload [k_ex; k_sub] []) = [k_ex] /\ bm (reload [k_sub; k_ex] []) = [k_sub; k_ex].
 Proof. exact reload_exact_refuted_lemma. Qed.
 Print Assumptions reload_exact_refuted.
 
-(* ... and holds for clean, irredundant lists *)
+(* ... and holds for irredundant lists *)
 Theorem reload_exact_partial : forall w v ex wi,
-  Forall (good_entry w) (entries_of ex wi) -> Forall clean_entry (entries_of ex wi) ->
+  Forall (good_entry w) (entries_of ex wi) ->
   irredundant (entries_of ex wi) ->
   parse_bytes (snap_bytes (mk_snap v ex wi)) (mk_bl [] [] w) = mk_bl ex wi w.
 Proof. exact reload_exact_partial_lemma. Qed.
 Print Assumptions reload_exact_partial.
 
-(* both halves: any interleaving of API calls with clean keys, all persists done,
-   restart from `local` -> blocks exactly what the memory blocks *)
+(* both halves: any interleaving of API calls, all persists done, restart from `local`
+   -> blocks exactly what the memory blocks *)
 Theorem converged_reload_equiv : forall b0 l0 s,
-  csteps (init b0 l0) s -> mem_good b0 -> mem_clean b0 ->
+  csteps (init b0 l0) s -> mem_good b0 ->
   s_pending s = [] -> 0 < s_version s ->
   exists file, s_local s = Some file /\
     forall q, bl_exists (parse_bytes file (mk_bl [] [] (bw b0))) q = bl_exists (s_mem s) q.
